@@ -1,41 +1,82 @@
 import Afkak.ClientNet
 import Afkak.ClientTrace
 import Afkak.Monitor.C07
-/-! Open statements of C07 (full strength, not yet proved). -/
+/-! Statements of C07 about the coroutine model that were/are open.
+    Session 5: both statements of sessions 3-4 are FALSE as they were stated (`…_v1`, counterexamples proved in
+    AfkakProps/C07.lean); they are RESTATED here with the environment hypotheses that make them true, so that what is
+    listed as open is a real proof obligation.  `C07_unaware_unavailable_only_after_all` (restated, and stronger in
+    its conclusion: positional) is PROVED; `C07_model_traces_satisfy_monitor` (restated) is open. -/
+namespace Afkak.ClientNet
+open Afkak.ClientCache
+
+/-- every `connected()` report of the run is about a broker client that exists when it is made (what the harness
+    does: it polls the broker clients the real client has created) -/
+def connKnown (cfg : Cfg) : St → List (Env × Ev) → Bool
+  | _, [] => true
+  | st, (env, e) :: rest =>
+    (match e with | .conn b _ => decide (b < st.bcs.length) | _ => true) && connKnown cfg (step cfg st env e).1 rest
+
+/-- a completion a `_KafkaBrokerClient` can deliver for a request: a reply, a cancellation, or a Kafka error other
+    than `KafkaUnavailableError` (it fails requests with `ClientError`/`CancelledError`/`RequestTimedOutError`; any
+    other failure would have to be raised by `proto.sendString`) -/
+def benignRes : Res → Bool
+  | .ok _ => true
+  | .err k => k == .cancelled || (k != .unavailable && k.isKafkaError)
+
+end Afkak.ClientNet
+
 namespace Afkak.Props.C07.Open
 open Afkak.ClientNet Afkak.ClientCache
 
-/-- Every trace of the client model - with the attribution of each request to its operation that the model
-    knows from the request's owner (`traceOfA`, Afkak/ClientTrace.lean) - satisfies the core rules of the C07
-    monitor that is evaluated on the real client's traces: routing, one request per broker, order, accounting,
-    coordinator requests on the coordinator, connected brokers first, no broker tried twice; for well-formed
-    runs (fresh operation ids, no `badOp`, no fuel exhaustion).  The rules about the fall-back to the bootstrap
-    hosts are idle on these traces (no `battr`/`uop` items): see `C07_unaware_unavailable_only_after_all`.
-    Evaluated (not proved) on the model trace of every scenario the harness generates (`mon-c07-model`).
-    Proved pieces (session 4, AfkakProps/C07.lean): the requests and results of the coroutine are what the kernels
-    compute (`C07_coroutine_requests_and_results`: the content of rules c1/c2/c4/c5/c6), the address rule
-    (`C07_clients_follow_brokers`), "unavailable only after every bootstrap host" (`…_partial`).  What is missing for
-    the statement itself: rule c3 compares the leader a look-up read from the cache IN THE MIDDLE of a step with the
-    dumps at step ends - it needs a stack invariant "no action that runs after a look-up in the same step rewrites the
-    routing entry the look-up read" (true because the chains `reply -> merge -> look-up -> issue` are linear and a
-    `sendCheck` that runs after a synchronous `acks=0` completion has nothing to invalidate, but not a syntactic class
-    of actions) - and the broker-agnostic rules need the monitor's view of connected brokers (`conn`/`bcClose` items)
-    tied to `BcInst.conn`/`inClients` across steps. -/
-def C07_model_traces_satisfy_monitor : Prop :=
+/-- (session 3-4 statement; FALSE: `C07_model_traces_satisfy_monitor_counterexample` - `WellFormedRun` admits a
+    `connected()` report for a broker client that does not exist yet.) -/
+def C07_model_traces_satisfy_monitor_v1 : Prop :=
   ∀ (cfg : Cfg) (evs : List (Env × Ev)), WellFormedRun cfg evs → NoFuel cfg {} evs →
     Afkak.Monitor.C07.ok cfg (traceOfA cfg {} evs) = true
 
-/-- (FALSE as stated: `C07_unaware_unavailable_only_after_all_counterexample` - the model lets a broker client fail a
-    request with any failure kind and only Kafka errors continue the broker loop; true with the environment assumption
-    `benignFires`: `C07_unaware_unavailable_only_after_all_partial`, which also drops the well-formedness, fuel and
-    no-cancel hypotheses.)
-    A metadata load fails with `unavailable` only after every bootstrap host has been tried - unless the
-    client was closed or the operation cancelled (then the failure is not the exhaustion of all servers).
-    Stated on the model's coroutine, all well-formed event sequences. -/
-def C07_unaware_unavailable_only_after_all : Prop :=
+/-- OPEN.  Every trace of the client model - with the attribution of each request to its operation that the model
+    knows from the request's owner (`traceOfA`, Afkak/ClientTrace.lean) - satisfies the core rules of the C07
+    monitor that is evaluated on the real client's traces: routing, one request per broker, order, accounting,
+    coordinator requests on the coordinator, connected brokers first, no broker tried twice; for well-formed
+    runs (fresh operation ids, no `badOp`, no fuel exhaustion) in which every `connected()` report is about an
+    existing broker client (`connKnown`; without it the statement is false: `…_v1`).  The rules about the fall-back to
+    the bootstrap hosts are idle on these traces (no `battr`/`uop` items): see `C07_unaware_unavailable_only_after_all`.
+    Evaluated (not proved) on the model trace of every scenario the harness generates (`mon-c07-model`), and on 4000
+    random event sequences of the model alone (tools/c07_model_monitor_fuzz.lean: 204 completed sends, 1092
+    FailedPayloadsErrors, 5268 broker-agnostic attempts, 331 coordinator requests): no rejection.
+    Proved pieces (AfkakProps/C07.lean): the SHAPE of the requests and results of the coroutine
+    (`C07_coroutine_requests_and_results`), the address rule (`C07_clients_follow_brokers`), "unavailable only after
+    every bootstrap host" (`C07_unaware_unavailable_only_after_all`).  What is missing: a simulation relation between the
+    model state and the monitor state (which request belongs to which slot of which send, with which recorded
+    outcome - the monitor recomputes results from the replies it saw); rule c3 compares the leader a look-up read from
+    the cache IN THE MIDDLE of a step with the dumps at step ends - it needs a stack invariant "no action that runs
+    after a look-up in the same step rewrites the routing entry the look-up read"; and the broker-agnostic rules need
+    the monitor's view of connected brokers (`conn`/`bcClose` items) tied to `BcInst.conn`/`inClients` across steps. -/
+def C07_model_traces_satisfy_monitor : Prop :=
+  ∀ (cfg : Cfg) (evs : List (Env × Ev)), WellFormedRun cfg evs → NoFuel cfg {} evs → connKnown cfg {} evs = true →
+    Afkak.Monitor.C07.ok cfg (traceOfA cfg {} evs) = true
+
+/-- (session 3-4 statement; FALSE: `C07_unaware_unavailable_only_after_all_counterexample` - the model lets a broker
+    client fail a request with any failure kind and only Kafka errors continue the broker loop.) -/
+def C07_unaware_unavailable_only_after_all_v1 : Prop :=
   ∀ (cfg : Cfg) (evs : List (Env × Ev)) (o : Nat), WellFormedRun cfg evs → NoFuel cfg {} evs →
     (∀ e ∈ evs, (∀ o', e.2 ≠ .close o') ∧ e.2 ≠ .cancel o) →
     TItem.ob (.result o (.fail .unavailable)) ∈ traceOf cfg {} evs →
     ∀ hp ∈ cfg.bootHosts, ∃ j, TItem.ob (.bootConnect j hp.1 hp.2) ∈ traceOf cfg {} evs
+
+/-- PROVED (AfkakProps/C07.lean).  Restated with the environment hypothesis that makes it true (`benignRes`: what a
+    `_KafkaBrokerClient` delivers) and WITHOUT the well-formedness, fuel and no-cancel hypotheses of `…_v1`, and with a
+    POSITIONAL conclusion: an operation fails with `unavailable` only AFTER a bootstrap connection attempt to every
+    configured bootstrap host - the attempts are in the part of the trace that precedes the result (unless the client
+    is closed: then the failure is not the exhaustion of all servers).  Not in the statement: that the attempts are
+    those of the broker-agnostic request of operation `o` itself (the model's trace carries no `battr`/`uop`
+    attribution), and the first half of the sentence - every KNOWN broker was tried before, connected ones first
+    (kernel level: `C07_connected_first`; on real traces: the monitor's `uattr`/`battr` rules). -/
+def C07_unaware_unavailable_only_after_all : Prop :=
+  ∀ (cfg : Cfg) (evs : List (Env × Ev)) (o : Nat),
+    (∀ e ∈ evs, ∀ o', e.2 ≠ .close o') → (∀ e ∈ evs, ∀ k r, e.2 = .fire k r → benignRes r = true) →
+    TItem.ob (.result o (.fail .unavailable)) ∈ traceOf cfg {} evs →
+    ∃ pre post, traceOf cfg {} evs = pre ++ TItem.ob (.result o (.fail .unavailable)) :: post ∧
+      ∀ hp ∈ cfg.bootHosts, ∃ j, TItem.ob (.bootConnect j hp.1 hp.2) ∈ pre
 
 end Afkak.Props.C07.Open
